@@ -1,5 +1,7 @@
 //! Explorers for the data / packaging properties C13 C14 C18 (and generators for C07 C08 C09).
 mod c07;
+mod c08;
+mod c09;
 mod c13;
 mod c14;
 mod c18;
@@ -11,6 +13,8 @@ fn main() {
     match args.sub.as_str() {
         "c07gen" => c07::generate(&args),
         "c07-execd" => c07::execd_helper(&args),
+        "c08parse" => c08::run(&args),
+        "c09" => c09::run(&args),
         "c13" => c13::run(&args),
         "c14" => c14::run(&args),
         "c18" => c18::run(&args),
